@@ -57,7 +57,7 @@ def cases(draw, big):
     ch = st.lists(st.integers(0, 40), max_size=draw(st.sampled_from([0, 30, 400])))
     off = draw(st.integers(0, size + 2))
     ln = draw(st.integers(0, size + 2))
-    return {"threads": draw(st.sampled_from(["sync", "async"])), "k": k, "n": n, "happy": happy, "seg": seg, "size": size, "servers": nservers, "fill": draw(st.integers(0, 5)),
+    return {"hsalt": draw(st.integers(0, 15)), "threads": draw(st.sampled_from(["sync", "async"])), "k": k, "n": n, "happy": happy, "seg": seg, "size": size, "servers": nservers, "fill": draw(st.integers(0, 5)),
             "convergent": draw(st.booleans()), "guess": draw(st.sampled_from([None, None, 16, 100, 1000])), "up": draw(ch), "down": draw(ch), "read": [off, ln]}
 
 
